@@ -63,6 +63,8 @@ pub fn probes(_tier: &str) -> Vec<String> {
     "fault.adversary.kb_wrong_typ",
     "fault.adversary.kb_stale_sd_hash",
     "fault.adversary.strip_kb",
+    "fault.adversary.kb_prefix_or_extension_value",
+    "fault.adversary.forged_issuer_claim",
     "fault.clock.boundary",
     "probe.cred.accepted",
     "probe.cred.rejected",
@@ -421,7 +423,7 @@ pub fn run(_params: &Params) {
     let mut kb_present = true;
     let n_moves = ctx::weighted(&[5, 4, 1]);
     for _ in 0..n_moves {
-      match ctx::choose(10) {
+      match ctx::choose(11) {
         0 if !disclosures.is_empty() => {
           disclosures.remove(ctx::choose(disclosures.len()));
           ctx::stat("fault.adversary.drop_disclosure");
@@ -483,6 +485,23 @@ pub fn run(_params: &Params) {
           kb_present = false;
           ctx::stat("fault.adversary.strip_kb");
           moves.push("strip_kb");
+        }
+        9 => {
+          // a Byzantine holder signs KB claims whose sd_hash or nonce is a proper prefix / an extension of the right
+          // value (or empty): equal-up-to-the-shorter-length is not equal
+          let mut c = serde_json::to_value(&kb_claims).unwrap();
+          let field = if ctx::choose(2) == 0 { "sd_hash" } else { "nonce" };
+          let cur = c[field].as_str().unwrap_or("").to_owned();
+          c[field] = match ctx::choose(3) {
+            0 => Value::from(""),
+            1 => Value::from(&cur[..cur.len() / 2]),
+            _ => Value::from(format!("{cur}-2")),
+          };
+          if let Ok(k) = sign_raw(holder, kb_frag, c.to_string().as_bytes(), &kb_opts) {
+            kb = k;
+            ctx::stat("fault.adversary.kb_prefix_or_extension_value");
+            moves.push("kb_prefix_value");
+          }
         }
         _ => {}
       }
@@ -838,6 +857,76 @@ pub fn run(_params: &Params) {
     if ctx::has_violation() {
       break;
     }
+  }
+  // ---- forged issuer: the adversary signs an SD-JWT that names the honest issuer in `iss` (possibly concealed and
+  // then disclosed) under its own kid; validated against the adversary's own, correctly resolved document the
+  // signature is fine, but the credential's issuer is not the signer ----
+  if ctx::choose(5) == 0 {
+    let now_a = clock.enter(0);
+    let c = serde_json::json!({
+      "@context": "https://www.w3.org/2018/credentials/v1",
+      "type": ["VerifiableCredential"],
+      "issuer": issuer.did,
+      "issuanceDate": ts(now_a - 10).to_rfc3339(),
+      "credentialSubject": {"id": holders[0].did, "level": 99}
+    });
+    if let Ok(cred) = Credential::<Object>::from_json_value(c) {
+      if let Ok(payload) = cred.serialize_jwt(None) {
+        if let Ok(mut enc) = SdObjectEncoder::new(&payload) {
+          let mut disclosures: Vec<String> = Vec::new();
+          let conceal_iss = ctx::choose(2) == 0;
+          if conceal_iss {
+            if let Ok(d) = enc.conceal("/iss", Some(identity_jose::jwu::encode_b64(ctx::bytes(16)))) {
+              disclosures.push(d.to_string());
+            }
+          }
+          if ctx::choose(2) == 0 {
+            if let Ok(d) = enc.conceal("/vc/credentialSubject/level", Some(identity_jose::jwu::encode_b64(ctx::bytes(16)))) {
+              disclosures.push(d.to_string());
+            }
+          }
+          if let Ok(encoded) = enc.try_to_string() {
+            let opts = JwsSignatureOptions::default().typ("sd-jwt".to_owned());
+            if let Ok(jwt) = sign_raw(&adv, "adv", encoded.as_bytes(), &opts) {
+              ctx::stat("fault.adversary.forged_issuer_claim");
+              ctx::sched("forged_iss", conceal_iss as u64);
+              let sd = SdJwt::new(jwt, disclosures, None);
+              if let Some((_v, Ok(adv_doc))) = ledger.resolve(&adv.did, 0) {
+                ctx::set_clock(clock.now);
+                let validator =
+                  SdJwtCredentialValidator::with_signature_verifier(EdDSAJwsVerifier::default(), SdObjectDecoder::new_with_sha256());
+                let res = ctx::catch(|| {
+                  validator.validate_credential::<_, Object>(&sd, &adv_doc, &JwtCredentialValidationOptions::default(), FailFast::FirstError)
+                });
+                let situation = if conceal_iss { "iss-concealed-and-disclosed" } else { "iss-in-the-clear" };
+                match res {
+                  Err(p) => ctx::violation("C16", "C16.error_never_crash", format!("validate_credential/panic/forged-issuer/{situation}"), format!("panicked: {p}")),
+                  Ok(Ok(_)) => ctx::violation(
+                    "C16",
+                    "C16.credential_accept_only_if_bound",
+                    format!("accepted-despite/issuer-is-not-the-signer/{situation}"),
+                    format!("an SD-JWT signed by {} but naming {} as issuer was accepted", adv.did, issuer.did),
+                  ),
+                  Ok(Err(e)) => {
+                    let got = variant_names(&e.validation_errors);
+                    ctx::trace(format!("forged issuer ({situation}) -> Err{got:?}"));
+                    if got != vec!["IdentifierMismatch"] {
+                      ctx::violation(
+                        "C16",
+                        "C16.error_identifies_condition",
+                        format!("want=IdentifierMismatch/got={}/forged-issuer", got.join("+")),
+                        format!("the only false condition is issuer == signer DID but errors are {got:?}"),
+                      );
+                    }
+                  }
+                }
+              }
+            }
+          }
+        }
+      }
+    }
+    nontrivial = true;
   }
   if nontrivial {
     ctx::mark_nontrivial();
